@@ -2,6 +2,7 @@ package c05
 
 import (
 	"fmt"
+	"strings"
 
 	"github.com/pbenner/autodiff/algorithm/cholesky"
 	"github.com/pbenner/autodiff/algorithm/eigensystem"
@@ -21,6 +22,7 @@ import (
  * -------------------------------------------------------------------------- */
 
 var coarseSq = map[string]string{
+	"hard-blocks":   "hard-blocks",
 	"distinct-real": "real-spectrum", "zero-eig": "real-spectrum", "diagonal": "already-reduced", "nonnormal": "real-spectrum", "triangular": "already-reduced",
 	"repeated-real": "repeated", "identity": "already-reduced", "clustered-real": "clustered",
 	"complex-pairs": "complex-pairs", "mixed": "complex-pairs", "nonnormal-complex": "complex-pairs",
@@ -35,7 +37,8 @@ var coarseSym = map[string]string{
 }
 
 var coarseTall = map[string]string{
-	"distinct": "dense", "repeated": "dense", "clustered": "dense", "small-int": "dense", "graded": "dense", "dense-random": "dense",
+	"multi-zero-diagonal": "multi-zero-diagonal",
+	"distinct":            "dense", "repeated": "dense", "clustered": "dense", "small-int": "dense", "graded": "dense", "dense-random": "dense",
 	"zero-column": "dense", "zero-row": "dense", "rank-deficient": "dense-rank-deficient",
 	"partially-reduced": "partially-reduced",
 	"bidiagonal":        "already-bidiagonal", "diagonal": "already-bidiagonal", "identity": "already-bidiagonal", "bidiagonal-zero-diag": "bidiagonal-zero-diagonal",
@@ -127,6 +130,12 @@ func twoCalls(cs *fw.Case, routine string, t elemT, fine, coarse string, inputs 
 		if v.Middle {
 			opts = om
 		}
+		if v.Kind == "error" && iterationCapError(v.Detail) && coarse != "multi-zero-diagonal" && coarse != "hard-blocks" {
+			// the routine gave up after its own iteration limit: one root-cause
+			// signature per routine (options, type, class stay in detail / witness);
+			// the two classes of exact-zero / hard-block inputs keep their own cells
+			v.Kind = "iteration-cap-error"
+		}
 		switch v.Kind {
 		case "earlier-result-overwritten":
 			// independent of the spectrum, of views and of the ComputeU/V flags
@@ -149,6 +158,16 @@ func twoCalls(cs *fw.Case, routine string, t elemT, fine, coarse string, inputs 
 				cs.C.CoverMax("max:sweeps-per-row(x100):"+routine, 100*lastTicks/int64(A.C))
 			}
 		}
+		if v.Kind == "iteration-cap-error" {
+			cs.Cover("iteration-cap-error:" + routine)
+			if v.Wit == nil {
+				v.Wit = map[string]any{}
+			}
+			v.Wit["options"], v.Wit["element type"], v.Wit["input class"] = opts, t.Name, class
+			v.Detail = fmt.Sprintf("[%s, %s, %s] %s", opts, t.Name, class, v.Detail)
+			reportCap(cs, routine, A, v)
+			continue
+		}
 		if report(cs, routine, opts, t, class, A, v) {
 			for kind, r := range v.Ratio {
 				cs.C.CoverMax("max:ratio-permille(held):"+routine+":"+kind, int64(1000*r))
@@ -158,6 +177,28 @@ func twoCalls(cs *fw.Case, routine string, t elemT, fine, coarse string, inputs 
 			}
 		}
 	}
+}
+
+// iterationCapError: the library reports that it stopped at its iteration limit.
+func iterationCapError(msg string) bool {
+	for _, p := range []string{"failed to converge", "failed to reduce", "did not converge", "no convergence within", "maximum number of iterations"} {
+		if strings.Contains(msg, p) {
+			return true
+		}
+	}
+	return false
+}
+
+// reportCap reports an iteration-cap error under its per-routine root-cause signature.
+func reportCap(cs *fw.Case, routine string, A *la.Mat, v verdict) {
+	cs.Cover("call:" + routine + "/iteration-cap")
+	cs.Cover("judged:" + routine)
+	wit := map[string]any{"A": A.Rows()}
+	for k, x := range v.Wit {
+		wit[k] = x
+	}
+	cs.Violation(fmt.Sprintf("C05|factor|%s|any|any|admissible-input|iteration-cap-error", routine),
+		fmt.Sprintf("%s %dx%d: %s", routine, A.R, A.C, v.Detail), wit)
 }
 
 func firstOpt(o string) string {
